@@ -13,9 +13,10 @@ import (
 
 // V is one violation found by a monitor in one run.
 type V struct {
-	Sig  string
-	What string
-	Seq  int
+	Sig   string
+	What  string
+	Seq   int
+	Extra []string // events that explain the violation (offline monitors)
 }
 
 // Base carries what every monitor reports.
